@@ -310,7 +310,7 @@ def bounded_post(self, x, n, r, R, nmin, pmax, rto, rte, inf_signed, has_neg_zer
                                  and r._real._exp == self.inf_value._real._exp
                                  and r._real._c == self.inf_value._real._c and r._isnan == self.inf_value._isnan
                                  and r._isinf == self.inf_value._isinf) if self.inf_value is not None else True,
-        'ovf_max': implies(arm_max, fl_finite(r) and r._real._s == s and r._real._exp == mv_exp and r._real._c == mv_c),
+        'ovf_max': implies(arm_max, fl_finite(r) and (r._real._s == s or mv_c == 0) and r._real._exp == mv_exp and r._real._c == mv_c),
         'ovf_flag_overflow': implies(ovf, r._real._flags.overflow),
         'ovf_flag_inexact': implies(ovf, r._real._flags.inexact),
     }
@@ -399,3 +399,61 @@ def mpx_raises(self, x, n, exact):
                       or (inf and not self.enable_inf and self.inf_value is None)
                       or (op_nonzero(x) and exact and mpx_R(self, x, n)[2]),
     }
+
+
+# ---------------------------------------------------------------------------
+# MPBFixed family: MPFixed(nmin) cut off at neg_maxval .. pos_maxval (neg_maxval <= 0 <= pos_maxval)
+
+def fx_ord_mag(exp, c, nmin):
+    """|ordinal| of c * 2^exp on the grid 2^(nmin+1) Z (exact for members)"""
+    off = exp - (nmin + 1)
+    return ite(c == 0, 0, (c * pow2(off)) if off >= 0 else fdiv(c, pow2(0 - off)))
+
+
+def fx_ord(s, exp, c, nmin):
+    return ite(s, 0 - fx_ord_mag(exp, c, nmin), fx_ord_mag(exp, c, nmin))
+
+
+@invariant('fpy2.number.context.mpb_fixed:MPBFixedContext')
+def inv_MPBFixedContext(k):
+    f = k._fmt
+    return ((k.pos_maxval._c == 0 or not k.pos_maxval._s) and (k.neg_maxval._c == 0 or k.neg_maxval._s)
+            and f.nmin == k.nmin
+            and f.enable_nan == k.enable_nan and f.enable_inf == k.enable_inf
+            and same_real(f.pos_maxval, k.pos_maxval) and same_real(f.neg_maxval, k.neg_maxval)
+            and f._mp_fmt.nmin == k.nmin and f._mp_fmt.enable_neg_zero == k.enable_neg_zero
+            and f._mp_fmt.enable_nan == k.enable_nan and f._mp_fmt.enable_inf == k.enable_inf
+            )
+
+
+def mpbx_ordinals(k):
+    """derived fields of MPBFixedFormat (set by its constructor): ordinals of the two largest values, both members"""
+    f = k._fmt
+    return (f._pos_maxval_ord == fx_ord(k.pos_maxval._s, k.pos_maxval._exp, k.pos_maxval._c, k.nmin)
+            and f._neg_maxval_ord == fx_ord(k.neg_maxval._s, k.neg_maxval._exp, k.neg_maxval._c, k.nmin)
+            and on_grid(k.pos_maxval, k.nmin) and on_grid(k.neg_maxval, k.nmin))
+
+
+def mpbx_post(self, x, n, exact, r):
+    R = mpx_R(self, x, n)
+    out = bounded_post(self, x, n, r, R, self.nmin, None, True, True, False, self.enable_neg_zero)
+    # K4 WRAP: the member whose ordinal is congruent to the unbounded result's ordinal modulo the number of members
+    xr = op_real(x)
+    s = xr._s
+    mv_exp = ite(s, self.neg_maxval._exp, self.pos_maxval._exp)
+    mv_c = ite(s, self.neg_maxval._c, self.pos_maxval._c)
+    arm_wrap = op_nonzero(x) and mag_lt_ec(mv_exp, mv_c, R[0], R[1]) and self.overflow.name == 'WRAP'
+    lo = fx_ord(self.neg_maxval._s, self.neg_maxval._exp, self.neg_maxval._c, self.nmin)
+    hi = fx_ord(self.pos_maxval._s, self.pos_maxval._exp, self.pos_maxval._c, self.nmin)
+    W = ite(r._real._s, 0 - r._real._c, r._real._c)
+    ordR = ite(s, 0 - R[1] * pow2(R[0] - self.nmin - 1), R[1] * pow2(R[0] - self.nmin - 1))
+    out.update({
+        'wrap_member': implies(arm_wrap, fl_finite(r) and (r._real._c == 0 or r._real._exp == self.nmin + 1)),
+        'wrap_range': implies(arm_wrap, lo <= W and W <= hi),
+        'wrap_congruent': implies(arm_wrap, fmod(W - ordR, hi - lo + 1) == 0),
+    })
+    return out
+
+
+def mpbx_raises(self, x, n, exact):
+    return bounded_raises(self, x, exact, mpx_R(self, x, n), True, True)
